@@ -3,7 +3,7 @@
    The model (theories/Ledger.v) mirrors vm/vm.go, vm/vm_context/balance.go, chain/account/{balance,received,sequencer}.go,
    the sequencer push of chain/momentum/ledger_store.go, the value checks of verifier/account_block.go and
    vm/embedded/implementation/token.go; every other embedded method is the arbitrary parameter [KOther]. *)
-From ZV Require Import Prelude Ledger LedgerProofs.
+From ZV Require Import Prelude Ledger LedgerProofs LedgerEmb LedgerEmbProofs.
 From ZV.gen Require Import Consts.
 Open Scope Z_scope.
 
@@ -18,7 +18,7 @@ Proof. exact step_inv. Qed.
 Theorem C01_supply_conserved : forall ops s0,
   Inv s0 ->
   let s := run true s0 ops in
-  (forall z, z <> ZeroZts -> tok_total s z = sum_bal z (bal s) + inflight_sum z s) /\
+  (forall z, z <> ZeroId -> tok_total s z = sum_bal z (bal s) + inflight_sum z s) /\
   (forall z, tok_total s z <= tok_max s z) /\
   (forall a z, 0 <= balance s a z).
 Proof. exact supply_conserved. Qed.
@@ -54,6 +54,44 @@ Theorem C01_genesis_sound : forall balances tokens,
   Forall (fun e => 0 <= snd e) balances ->
   Inv (genesis_state balances tokens).
 Proof. exact genesis_sound. Qed.
+
+(* ---- concrete method bodies (theories/Emb.v through theories/LedgerEmb.v): Donate, DepositQsr, WithdrawQsr, CollectReward,
+   Fuse, CancelFuse, Stake, Cancel.  For them the VM discipline is a theorem: *)
+Theorem C01_supply_conserved_concrete : forall xs s0, Inv s0 -> Inv (run_x true s0 xs).
+Proof. exact run_x_inv. Qed.
+
+Theorem C01_concrete_methods_disciplined : forall m now height sd data dok,
+  is_token_call (call_of_emb m now height sd data dok) = false /\
+  (call_of_emb m now height sd data dok = KPanic \/ exists ok ds, call_of_emb m now height sd data dok = KOther ok ds).
+Proof. exact call_of_emb_disciplined. Qed.
+
+(* Donate, DepositQsr, Fuse, Stake keep what they receive and send nothing *)
+Theorem C01_keepers_send_nothing : forall m now height sd data dok ds,
+  (m = MDonate \/ m = MDepositQsr \/ m = MFuse \/ m = MStake) ->
+  emb_outcome m now height sd data dok = Some (Some ds) -> ds = [].
+Proof. exact emb_keepers_send_nothing. Qed.
+
+(* WithdrawQsr / CancelFuse / Cancel pay exactly the stored amount (QSR / QSR / ZNN), once, to the caller *)
+Theorem C01_withdraw_pays_caller : forall dep now height sd data dok ds,
+  emb_outcome (MWithdrawQsr dep) now height sd data dok = Some (Some ds) ->
+  dep <> 0 /\ ds = [(addr_of_bytes (addr_bytes (Ledger.s_from sd)), QsrId, dep, dok)].
+Proof. exact emb_withdraw_pays_caller. Qed.
+Theorem C01_cancel_fuse_pays_caller : forall entry now height sd data dok ds,
+  emb_outcome (MCancelFuse entry) now height sd data dok = Some (Some ds) ->
+  exists amt exp, entry = Some (amt, exp) /\ exp <= height /\
+                  ds = [(addr_of_bytes (addr_bytes (Ledger.s_from sd)), QsrId, amt, dok)].
+Proof. exact emb_cancel_fuse_pays_caller. Qed.
+Theorem C01_cancel_stake_pays_caller : forall entry now height sd data dok ds,
+  emb_outcome (MCancelStake entry) now height sd data dok = Some (Some ds) ->
+  exists amt exp, entry = Some (amt, exp) /\ exp <= now /\
+                  ds = [(addr_of_bytes (addr_bytes (Ledger.s_from sd)), ZnnId, amt, dok)].
+Proof. exact emb_cancel_stake_pays_caller. Qed.
+
+(* CollectReward emits only zero-amount Mint calls to the token contract *)
+Theorem C01_collect_only_mint_calls : forall znn qsr now height sd data dok ds,
+  emb_outcome (MCollectReward znn qsr) now height sd data dok = Some (Some ds) ->
+  Forall (fun d => d = (TokenContract, ZnnId, 0, dok)) ds /\ (length ds <= 2)%nat.
+Proof. exact emb_collect_only_mint_calls. Qed.
 
 (* record: below the enforcement height a send could be received by an account it was not addressed to and
    again by the addressee; the invariant then fails (protocol history; C03 names the enforcement height) *)
